@@ -115,7 +115,7 @@ def gen_one(rng, tier):
     pool = make_pool(rng)
     cfg = rng.choice([0, 1, 1, 2, 2, 2, 3])
     memsz = rng.choice([8, 12, 24, 30, 48, 64, 100, 1 << 20, 1 << 20])
-    nops = rng.randint(8, 32 if tier == "quick" else 120)
+    nops = rng.randint(8, 32 if tier == "quick" else 80)
     putable = [x for x in pool if x[2]] or pool[:1]
     ops = []
     addrs = [x[0] for x in pool]
@@ -156,7 +156,7 @@ REGRESSION_NIL_GHOST = {"cfg": 3, "memsz": 1 << 20, "ops": [
 
 
 def gen_cases(rng, tier):
-    n = 150 if tier == "quick" else 6000
+    n = 150 if tier == "quick" else 1200   # thorough sized for ≈ 30 min (Coq evaluation dominates)
     return [REGRESSION_NIL_GHOST] + [gen_one(rng, tier) for _ in range(n)]
 
 
